@@ -21,7 +21,7 @@ ASSUMPTIONS = ["harness classes that travel by value live in an importable modul
                "forced replacement of an id is an explicit request, not a silent one", "for an object forcibly registered under two ids only id->object dispatch and the reported id set are checked",
                "marshal has no type-replacement hook by design: by-value only"]
 REQUIRED_REACH = ["slotted_objects_ok", "returned_as_proxy_after_converter_churn", "steps_ok", "calls_dispatched", "unknown_id_refused", "returned_as_proxy", "returned_by_value", "duplicates_refused", "weak_collected", "registered_listing_ok", "combined_daemon_rounds"]
-SHARD_TIMEOUT = {"quick": 240, "thorough": 2800}
+SHARD_TIMEOUT = {"quick": 480, "thorough": 2800}
 AUTO = ("serpent", "json", "msgpack")
 
 
